@@ -20,6 +20,10 @@ CHECKS = {
          "For the same generated values the real decoder's output tree must equal the encoded tree and the re-encoding must equal the bytes, which TLC has shown equal to the independent X.691 encoder's output (Per!PerEncode), so every such case is also a canonical encoding from an independent encoder."),
  "C13": ("TLA+ trace validation with TLC: builder output decoded by the spec's X.691 decoder (Per!PerDecode) and judged against TS 38.413 tables in Ngap.tla",
          "Every builder's bytes are decoded inside TLC with an independent PER decoder and must be the TS 38.413 message (class, procedure code, criticality, clause 9.2 IE table for the emulator's messages) carrying exactly the recorded arguments; out-of-range identifiers must be refused; 303/303 single-argument corruptions of a recorded trace are rejected."),
+ "C01": ("TLC runs the specification's AMF online against the real emulator process (StgOnline.tla: IOExec byte pump); exhaustive TLC model checking of the abstract system spec (Stg.tla)",
+         "The unmodified main() registers its UEs against the AMF of the specification executed by TLC: every uplink message is decoded (Per/Ngap/Nas24501 in TLA+) and judged by Amf!AmfHandle (TS 38.413 tables, identifiers, SUCI/PLMN, RES* = XRES* from Milenage/KDF in TLA+, header types, MAC under the network's keys, COUNT = previous + 1), downlink messages are built and protected by the spec; exit status and banner judged at the end."),
+ "C02": ("TLC runs the specification's AMF/SMF online against the real emulator process for complete test-mode runs; exhaustive TLC model checking of the abstract system spec (Stg.tla)",
+         "As C01 for all five loops and several UEs: PDU session identity consistency across 5GSM header / NAS transport IE / NGAP response, prerequisites (session and registration state machine of the AMF), COUNT per UE, GTP address of the response transfer, reported (UE IP, TEID, UPF) = assigned (hook H2), procedure counts = the Min() clamps of the main program."),
 }
 NA = {}
 def main():
